@@ -60,8 +60,29 @@ func init() {
 			if len(call.Args) >= 1 {
 				fv.evalExpr(st, call.Args[0])
 			}
+			before := st.clone()
 			if len(call.Args) >= 2 {
 				fv.decodeInto(st, call.Args[1])
+			}
+			// the value is stored only when the lookup succeeds: on an error (key not present) the
+			// library leaves the output object untouched
+			rs := fv.freshResults(st, call, "bpflookup")
+			hit := smt.True
+			if len(rs) == 1 {
+				hit = fv.c.Let("lkhit", smt.Eq(rs[0], smt.IntLit(0)))
+				var ks []string
+				for k := range st.heap {
+					ks = append(ks, k)
+				}
+				sortStrings(ks)
+				for _, k := range ks {
+					if b := fv.heapGet(before, k); b.S != st.heap[k].S && b.Sort == st.heap[k].Sort {
+						st.heap[k] = fv.c.Let("lkmem", smt.Ite(hit, st.heap[k], b))
+					}
+				}
+			}
+			if cur, ok := st.ghost["bpfLookupHits"]; ok && !st.dead() {
+				st.ghost["bpfLookupHits"] = fv.c.Let("ghost_bpfLookupHits", smt.Add(cur, smt.Ite(hit, smt.IntLit(1), smt.IntLit(0))))
 			}
 			// observable through the function-level ghost counter bpfLookups, when declared
 			if cur, ok := st.ghost["bpfLookups"]; ok && !st.dead() {
@@ -72,7 +93,7 @@ func init() {
 					st.ghost["bpfDeletes"] = fv.c.Let("ghost_bpfDeletes", smt.Add(cur, smt.IntLit(1)))
 				}
 			}
-			return fv.freshResults(st, call, "bpflookup")
+			return rs
 		}
 		impureModel["(*github.com/cilium/ebpf.Map)."+name] = true
 	}
@@ -196,7 +217,7 @@ func init() {
 	AssumedLib = append(AssumedLib,
 		"(*json.Decoder).Decode: stores an arbitrary type-valid value through the pointer argument, may allocate, changes nothing else; json.NewDecoder/NewEncoder/(*Encoder).Encode, io.ReadAll: allocate only",
 		"(io.Closer).Close: no effect on the modelled heap",
-		"cilium/ebpf Map.Lookup / LookupAndDelete(key, out): store an arbitrary type-valid value through out, change nothing else of the Go state",
+		"cilium/ebpf Map.Lookup / LookupAndDelete(key, out): on a nil error store an arbitrary type-valid value through out, on an error leave out untouched; change nothing else of the Go state",
 		"sort.Strings(x): afterwards x[0:len(x)] is a permutation of its previous contents and no later element is str_lt an earlier one; nothing else changes",
 		"slices.Compact(x): in place; the result has the elements of x in order (strictly increasing source positions) without adjacent repeats (index maps both ways), adjacent elements differ, len <= len(x)",
 		"reads of exported fields of library structs modelled as opaque (e.g. http.Request.Method) are unconstrained")
